@@ -50,6 +50,22 @@ PredicateOf(B, sql, kw) ==
      ELSE LET e == ClauseEnd(T, D, i)
               r == ParseWhole(B, SubSeq(T, i + 1, e - 1))
           IN [has |-> TRUE, ok |-> r.ok, tr |-> r.tr]
+\* ON CONFLICT (..) [WHERE target] DO UPDATE SET .. [WHERE action]: the predicate of one of the two clauses;
+\* stray = the other clause carries a predicate although it was given none
+ConflictPredicateOf(B, sql, target) ==
+  LET T == Norm(Lex(B, sql))
+      D == Depths(T)
+      c == FindKwIn(T, D, {"CONFLICT"}, 1, 0)
+      do == IF c = 0 THEN 0 ELSE FindKwIn(T, D, {"DO"}, c + 1, 0)
+      wt == IF c = 0 THEN 0 ELSE FindKwIn(T, D, {"WHERE"}, c + 1, 0)
+      tw == IF wt # 0 /\ do # 0 /\ wt < do THEN wt ELSE 0            \* WHERE of the target
+      aw == IF do = 0 THEN 0 ELSE FindKwIn(T, D, {"WHERE"}, do + 1, 0)  \* WHERE of the action
+      i == IF target THEN tw ELSE aw
+      other == IF target THEN aw ELSE tw
+  IN IF i = 0 THEN [has |-> FALSE, ok |-> TRUE, tr |-> None, stray |-> other # 0]
+     ELSE LET e == ClauseEnd(T, D, i)
+              r == ParseWhole(B, SubSeq(T, i + 1, e - 1))
+          IN [has |-> TRUE, ok |-> r.ok, tr |-> r.tr, stray |-> other # 0]
 \* CASE WHEN (<pred>) ... : the first WHEN condition of the first select item
 CasePredicateOf(B, sql) ==
   LET T == Norm(Lex(B, sql))
